@@ -43,7 +43,10 @@ def case_strategy(draw):
     dec = None
     if draw(st.booleans()):
         dm = draw(st.sampled_from(["IOU", "DSC", "ASSD"]))
-        dec = [dm, draw(gen.threshold(dm))]
+        if draw(st.booleans()):  # strict decision thresholds so that matched instances get rejected
+            dec = [dm, {"v": draw(st.sampled_from([0.0, 0.1, 0.25, 0.5] if dm == "ASSD" else [0.6, 0.75, 0.9, 1.0]))}]
+        else:
+            dec = [dm, draw(gen.threshold(dm))]
     if it == "SEMANTIC":
         dtype = draw(st.sampled_from(["uint8", "uint16", "int16", "int64", "uint32"]))
     else:
